@@ -90,6 +90,18 @@ def scenarios(ctx):
     out.append(Std('pub-clean', profile='pub', mode='async', init=CONNECTED + (('setwin', 0, 2),),
                    reconnects=[(True, 0, 4)], pub_qos=(1, 2),
                    budgets=dict(common, pub=2, ack=2, dack=1, disconnect=1)))
+    # the identifier counter wraps while an exchange is still waiting for its PUBCOMP
+    out.append(Std('pub-q2-wrap', profile='pub', mode='sync', init=CONNECTED + (('setwin', 0, 2),), pub_qos=(2,),
+                   budgets=dict(pub=2, ack=3, setid=1, tick=3, disconnect=1)))
+    # one factory, two addresses: the session handling of one address while the other has requests in flight
+    for cleanA in (True, False):
+        out.append(Std('two-addresses-%s' % ('clean' if cleanA else 'persist'), profile='pubsub', mode='async', naddr=2, pub_qos=(1, 2),
+                       init=(('connect', 0, cleanA, 0, 4), ('connack', 0, 0, False), ('connect', 1, True, 0, 4), ('connack', 1, 0, False)),
+                       connects=[(True, 0, 4)], reconnects=[(True, 0, 4)], budgets=dict(tick=3),
+                       addr_budgets=[dict(pub=1, sub=1, ack=1, tick=3), dict(lose=1, rebuild=1, connect=1, connack=1, tick=3)]))
+    out.append(Std('pub-lost-before-connect', profile='pub', mode='async', init=CONNECTED_P + (('setwin', 0, 2),), connects=[(False, 0, 4)],
+                   reconnects=[(False, 0, 4), (True, 0, 4)], pub_qos=(1, 2), lose_new=True,
+                   budgets=dict(pub=2, ack=1, tick=2, lose=2, rebuild=2, connect=1, connack=1, reconn2=1)))
     out.append(Std('pub-persist', profile='pub', mode='sync', init=CONNECTED_P, connects=[(False, 0, 4)],
                    reconnects=[(False, 0, 4), (True, 0, 4)], pub_qos=(1, 2),
                    budgets=dict(common, pub=2, ack=2, tick=3)))
